@@ -339,7 +339,7 @@ class Built:
         self.params = {}     # note index -> (ch, pitch, vel)
 
 
-def build_rel(ctx, spec, pitch=(60, 61), chan=(0, 0), vel=(1, 127), wait=(1, 32), prefix=""):
+def build_rel(ctx, spec, pitch=(60, 61), chan=(0, 0), vel=(1, 127), wait=(1, 32), prefix="", meta_ch=0):
     """spec: list of "W" | ("W", lo, hi) | ("ON", i) | ("OFF", i) | ("TS", num, den) | ("KS", key) | ("PC", prog)
     Every note index i gets symbolic (channel, pitch, velocity) in the given ranges; every wait a
     symbolic length.  Returns Built (messages are fresh Message objects with time=None except waits)."""
@@ -376,11 +376,11 @@ def build_rel(ctx, spec, pitch=(60, 61), chan=(0, 0), vel=(1, 127), wait=(1, 32)
             b.all_events.append(Ev(t, m.copy()))
             continue
         if kind == "TS":
-            m = ts(el[1], el[2])
+            m = ts(el[1], el[2], ch=meta_ch)
         elif kind == "KS":
-            m = ks(el[1])
+            m = ks(el[1], ch=meta_ch)
         elif kind == "PC":
-            m = pc(el[1])
+            m = pc(el[1], ch=meta_ch)
         else:
             raise core.HarnessError(f"bad spec element {el!r}")
         b.msgs.append(m)
